@@ -8,7 +8,7 @@ elements for which its predicate fails.  Anything that is not a compile-time
 constant, an enumerated variable or a pure helper of those evaluates to TOP
 (None), and a rule that needs it reports "not decided", never a verdict.
 """
-from .ir import strip_casts, const_of, kids
+from .ir import strip_casts, const_of, kids, show
 
 
 class Top(Exception):
@@ -314,7 +314,7 @@ def values_at(P, fn, target_ev, expr, env0, max_states=5000):
     return out
 
 
-def trace_calls(P, fn, env0, max_steps=20000, _depth=0):
+def trace_calls(P, fn, env0, max_steps=20000, _depth=0, assume_calls=None):
     """Finite-domain evaluation of the control skeleton of fn for ONE element of
     the finite input domain (env0 binds the enumerated parameters, e.g. a
     concrete length and address): values that cannot be evaluated become
@@ -351,6 +351,15 @@ def trace_calls(P, fn, env0, max_steps=20000, _depth=0):
         except (Top, ZeroDivisionError):
             if a0.get('op') == 'ref':
                 return ('var', a0['name'])
+            # base + offset into a local buffer whose address is not modelled
+            if a0.get('op') == 'bin' and a0['o'] == '+':
+                for x, y in ((a0['k'][0], a0['k'][1]), (a0['k'][1], a0['k'][0])):
+                    x0 = strip_casts(x)
+                    if x0.get('op') == 'ref' and x0['name'] not in env:
+                        try:
+                            return ('off', x0['name'], fd.ev(fn, strip_casts(y), env))
+                        except (Top, ZeroDivisionError):
+                            return None
             return None
 
     while True:
@@ -365,6 +374,9 @@ def trace_calls(P, fn, env0, max_steps=20000, _depth=0):
                     env[ev.name] = wrap(fd.ev(fn, ev.e, env), ev.t)
                 except (Top, ZeroDivisionError):
                     env.pop(ev.name, None)
+                    # the success skeleton: results of calls are taken as `assume_calls` when asked to
+                    if assume_calls is not None and ev.e is not None and strip_casts(ev.e).get('op') == 'call':
+                        env[ev.name] = assume_calls
             elif ev.k == 'store':
                 lhs, rhs, o = ev.store_parts()
                 l0 = strip_casts(lhs)
@@ -392,7 +404,7 @@ def trace_calls(P, fn, env0, max_steps=20000, _depth=0):
                                 sub_env[g.params[i_]['name']] = fd.ev(fn, strip_casts(a), env)
                             except (Top, ZeroDivisionError, KeyError):
                                 pass
-                    out.extend(trace_calls(P, g, sub_env, max_steps, _depth + 1))
+                    out.extend(trace_calls(P, g, sub_env, max_steps, _depth + 1, assume_calls))
                     continue
                 out.append((ev.callee, [arg_desc(a) for a in ev.args], ev))
                 for a in ev.args:
@@ -408,7 +420,13 @@ def trace_calls(P, fn, env0, max_steps=20000, _depth=0):
         if len(b.succs) == 1:
             b = b.succs[0][0]
             continue
-        c = fd.ev(fn, b.cond, env)      # Top propagates: the skeleton is not decidable for this input
+        try:
+            c = fd.ev(fn, b.cond, env)      # Top propagates: the skeleton is not decidable for this input
+        except Top:
+            import os
+            if os.environ.get('JLS_TRACE_DEBUG'):
+                print('trace_calls: not decidable: %s in %s with %s' % (show(b.cond), fn.name, sorted(env)))
+            raise
         nxt = None
         for s, label in b.succs:
             if (label == 'T' and c) or (label == 'F' and not c):
